@@ -609,6 +609,107 @@ type gcD9Result struct {
 	SubscribeReturned     bool           `json:"subscribe_returned"`
 	ReleasedByClose       bool           `json:"released_by_close"`
 	Events                []hookrt.Event `json:"events"`
+	// the same consumer-publishes-before-ack program WITHOUT a pending Subscribe must terminate
+	Nested []gcNestedResult `json:"nested"`
+	// non-unique UUIDs: what an early and a late (persistent replay) subscriber received
+	Dup []gcDupResult `json:"dup"`
+}
+
+type gcNestedResult struct {
+	Persistent     bool `json:"persistent"`
+	NestedReturned bool `json:"nested_returned"`
+	OuterReturned  bool `json:"outer_returned"`
+}
+
+type gcDupResult struct {
+	Persistent bool     `json:"persistent"`
+	Published  []string `json:"published"` // payloads, in publish order
+	Early      []string `json:"early"`     // payloads received by a subscriber that existed before
+	Late       []string `json:"late"`      // payloads received by a subscriber created afterwards (persistent only)
+}
+
+func gcWaited(c chan struct{}, d time.Duration) bool {
+	select {
+	case <-c:
+		return true
+	case <-time.After(d):
+		return false
+	}
+}
+
+// BlockPublishUntilSubscriberAck: the consumer publishes to another topic of the same GoChannel
+// from its receive loop before it acks; nothing else is going on.  Must terminate.
+func gcNested(persistent bool) gcNestedResult {
+	ps := gochannel.NewGoChannel(gochannel.Config{BlockPublishUntilSubscriberAck: true, Persistent: persistent}, watermill.NopLogger{})
+	res := gcNestedResult{Persistent: persistent}
+	ch, err := ps.Subscribe(context.Background(), "topic-0")
+	if err != nil {
+		return res
+	}
+	outer, nested := make(chan struct{}), make(chan struct{})
+	go func() { ps.Publish("topic-0", gcMakeMsg(1)); close(outer) }()
+	go func() {
+		m := <-ch
+		ps.Publish("topic-1", gcMakeMsg(2))
+		close(nested)
+		m.Ack()
+	}()
+	res.NestedReturned = gcWaited(nested, 2*time.Second)
+	res.OuterReturned = gcWaited(outer, 500*time.Millisecond)
+	closed := make(chan struct{})
+	go func() { ps.Close(); close(closed) }()
+	gcWaited(closed, 3*time.Second)
+	return res
+}
+
+// messages need not have unique UUIDs: three different messages with the same UUID (and one with
+// an empty UUID twice) are published; every subscriber that existed receives all of them, and in
+// persistent mode a subscriber created afterwards does too
+func gcDup(persistent bool) gcDupResult {
+	ps := gochannel.NewGoChannel(gochannel.Config{Persistent: persistent, OutputChannelBuffer: 16}, watermill.NopLogger{})
+	res := gcDupResult{Persistent: persistent, Published: []string{}, Early: []string{}, Late: []string{}}
+	collect := func(ch <-chan *message.Message, into *[]string, n int, done chan struct{}) {
+		defer close(done)
+		for i := 0; i < n; i++ {
+			select {
+			case m, ok := <-ch:
+				if !ok {
+					return
+				}
+				*into = append(*into, string(m.Payload))
+				m.Ack()
+			case <-time.After(1500 * time.Millisecond):
+				return
+			}
+		}
+	}
+	early, err := ps.Subscribe(context.Background(), "t")
+	if err != nil {
+		return res
+	}
+	msgs := []*message.Message{
+		message.NewMessage("same", []byte("a")), message.NewMessage("same", []byte("b")), message.NewMessage("other", []byte("c")),
+		message.NewMessage("same", []byte("d")), message.NewMessage("", []byte("e")), message.NewMessage("", []byte("f")),
+	}
+	d1 := make(chan struct{})
+	go collect(early, &res.Early, len(msgs), d1)
+	for _, m := range msgs {
+		res.Published = append(res.Published, string(m.Payload))
+		ps.Publish("t", m)
+	}
+	<-d1
+	if persistent {
+		late, err := ps.Subscribe(context.Background(), "t")
+		if err == nil {
+			d2 := make(chan struct{})
+			go collect(late, &res.Late, len(msgs), d2)
+			<-d2
+		}
+	}
+	closed := make(chan struct{})
+	go func() { ps.Close(); close(closed) }()
+	gcWaited(closed, 3*time.Second)
+	return res
 }
 
 func cmdGoChanD9(args []string) error {
@@ -652,22 +753,17 @@ func cmdGoChanD9(args []string) error {
 		close(nestedDone)
 		m.Ack()
 	}()
-	waited := func(c chan struct{}, d time.Duration) bool {
-		select {
-		case <-c:
-			return true
-		case <-time.After(d):
-			return false
-		}
-	}
-	res.NestedPublishReturned = waited(nestedDone, 1500*time.Millisecond)
-	res.OuterPublishReturned = waited(outerDone, 10*time.Millisecond)
-	res.SubscribeReturned = waited(subDone, 10*time.Millisecond)
+	res.NestedPublishReturned = gcWaited(nestedDone, 1500*time.Millisecond)
+	res.OuterPublishReturned = gcWaited(outerDone, 10*time.Millisecond)
+	res.SubscribeReturned = gcWaited(subDone, 10*time.Millisecond)
 	rt.Stamp("api.d9.verdict")
 	closed := make(chan struct{})
 	go func() { ps.Close(); close(closed) }()
-	res.ReleasedByClose = waited(closed, 3*time.Second) && waited(nestedDone, time.Second) && waited(outerDone, time.Second)
+	res.ReleasedByClose = gcWaited(closed, 3*time.Second) && gcWaited(nestedDone, time.Second) && gcWaited(outerDone, time.Second)
 	res.Events = rt.Log()
+	rt.Filter(func(point string, keys []string) bool { return false })
+	res.Nested = []gcNestedResult{gcNested(false), gcNested(true)}
+	res.Dup = []gcDupResult{gcDup(false), gcDup(true)}
 	return writeJSON(*out, res)
 }
 
